@@ -151,6 +151,7 @@ v("c19-contains-exclusive-end", ["C19"], [("token/position.go", "if line == p.En
 v("c19-start-after-first-read", ["C19"], [(L, "func (l *Lexer) addToken() token.Token {\n\tl.tokenBegins()\n\tl.readChar() // skip \"+\"", "func (l *Lexer) addToken() token.Token {\n\tl.readChar() // skip \"+\"\n\tl.tokenBegins()")], rule="R-TOKPOS")
 v("c13-slot-error-line-of-component-file", ["C13"], [("ast/program.go", "\t\t\t\treturn fail.New(slot.Line(), progFilePath, \"parser\",\n\t\t\t\t\tfail.ErrSlotNotDefined, slot.Name.Value, name)", "\t\t\t\treturn fail.New(prog.Line(), progFilePath, \"parser\",\n\t\t\t\t\tfail.ErrSlotNotDefined, slot.Name.Value, name)")], rule="R-ERRLINE", note="reverts 0f5722c at one site")
 v("c12-named-string-kind-case-dropped", ["C12"], [("object/utils.go", "\tcase reflect.String:\n\t\treturn &Str{Value: reflect.ValueOf(val).String()}\n", "")], rule="R-KINDS", note="reverts part of the named-types fix: a named string type is unsupported again")
+v("c12-keyword-after-dot-refused", ["C12", "C20"], [("parser/parser.go", "\tif p.peekTokenIs(token.TRUE, token.FALSE, token.NIL, token.IN) {\n\t\tp.nextToken() // skip \".\" and move to the name\n\t} else if !p.expectPeek(token.IDENT) {", "\tif !p.expectPeek(token.IDENT) {")], rule="R-DOTKW", note="reverts the keyword-after-dot fix")
 v("c19-read-past-end", ["C19", "C13"], [(L, "\tif closed {\n\t\tl.readChar() // skip the last quote\n\t}\n", "\tl.readChar() // skip the last quote\n")], rule="R-TOKPOS", note="reverts b97f69a: an unterminated string moves the lexer past the end of the input")
 v("c19-counter-written-elsewhere", ["C19"], [(L, "func (l *Lexer) skipWhitespace() {\n", "func (l *Lexer) skipWhitespace() {\n\tif l.char == '\\r' {\n\t\tl.col = 0\n\t}\n")], rule="R-TOKPOS")
 v("c19-end-from-current-position", ["C19", "C13"], [(L, "\t\tendCol = l.prevCol\n\t\tendLine = l.prevLine", "\t\tendCol = l.prevCol\n\t\tendLine = l.line")], rule="R-TOKPOS")
